@@ -55,8 +55,7 @@ kernel keeps_row: pybrops/core/util/pareto.py :: is_pareto_efficient  sha=19afe7
 kernel next_pivot: pybrops/core/util/pareto.py :: is_pareto_efficient  sha=19afe764320e6e35  ok
     slice: targets ['pt_ix'] -> pt_ix
     out of scope (parameter kept_before): `numpy.sum(ndpt_mask[:pt_ix])`
-kernel dominates: pybrops/opt/algo/pymoo_addon.py :: dominates  sha=6dece6f2994f5b0f  FAILED
-    dominates (pybrops/opt/algo/pymoo_addon.py:dominates): Untranslatable: call `bool(np.all(obj1 <= obj2))`
+kernel dominates: pybrops/opt/algo/pymoo_addon.py :: dominates  sha=bb54aca49d73b783  ok
 -/
 import PybropsModel.Np
 
@@ -161,6 +160,10 @@ def next_pivot (kept_before : Nat) : Nat :=
   pt_ix
 
 /-- pybrops/opt/algo/pymoo_addon.py :: dominates; model counterpart: Pareto.dominates -/
--- NOT TRANSLATED: dominates (pybrops/opt/algo/pymoo_addon.py:dominates): Untranslatable: call `bool(np.all(obj1 <= obj2))`
+def dominates {α : Type} [OfNat α 0] [LT α] [DecidableLT α] [LE α] [DecidableLE α] (obj1 : List α) (cv1 : α) (obj2 : List α) (cv2 : α) : Bool :=
+  if ((cv1 ≤ 0) ∧ (cv2 ≤ 0)) then
+    decide (((List.zip obj1 obj2).all (fun ab => decide (ab.1 ≤ ab.2)) = true) ∧ ((List.zip obj1 obj2).any (fun ab => decide (ab.1 < ab.2)) = true))
+  else
+    decide (cv1 < cv2)
 
 end PyK.C19
